@@ -90,6 +90,10 @@ def run(ctx):
     ctx.rule("R16.k", "class schema model: JSONSerialization.class__schema interpreted for tuples of classes ((int, float), (float, int), (int, str), (str, int, float)): the schema admits the "
                       "JSON type of the instances of EVERY class of the tuple (`number` for float even when int comes first)", floor=1)
     class_schema_model(ctx, "R16.k")
+    ctx.rule("R16.v", "the states the schema is promised for are the states validation admits: the bounds validators of the Number and Range families against the oracle (shared with R01.f) -- a "
+                      "descending Range that skips half its bounds checks is a valid state whose serialized form the schema's item bounds reject", floor=5)
+    from checks.c01_bounds import rule_f
+    rule_f(ctx, "R16.v")
     ctx.rule("R16.p", "the text that must validate is the value the codecs produced: JSONSerialization.dumps is plain json.dumps(x) (a float rounded on the way out can land ON an exclusive bound "
                       "its value was inside of) -- shared with R15.f", floor=2)
     from checks.c15 import transport_is_plain_json
